@@ -32,6 +32,8 @@ def RelClosed (d : ClassDiagram) (comp : Option Nat) (drv : Bool) (r : Rel) : Pr
     * the identifiers of a class have different numbers
     * the kept attributes of a class have names that stay distinct when upper-cased (`define_class` raises
       MetaModelException otherwise)
+    * no attribute name and no association key of the extracted metamodel has the form `__x__` (outside the SQL build
+      model: open finding build-builtin:dunder-identifier)
     * every relationship in scope has its classes in scope, its O_REFs resolve, and the referred attributes
       are kept attributes (`define_association` raises otherwise) -/
 structure ReloadOk (u : UC) (d : ClassDiagram) (comp : Option Nat) (drv : Bool) : Prop where
@@ -40,6 +42,8 @@ structure ReloadOk (u : UC) (d : ClassDiagram) (comp : Option Nat) (drv : Bool) 
   identNums : ∀ c ∈ d.classes, (c.idents.map (·.num)).Nodup
   rels : ∀ r ∈ d.rels, inScope d.containers comp r.parent = true → RelClosed d comp drv r
   attrNames : ∀ c ∈ d.classes, attrNamesOk u ((classOf d drv c).toM.attrs) = true
+  plainAttrs : ∀ c ∈ ((extract d comp drv).toMM).classes, ∀ a ∈ c.attrs, isDunder a.1 = false
+  plainKeys : ∀ a ∈ ((extract d comp drv).toMM).assocs, ∀ k ∈ a.src.keys ++ a.tgt.keys, isDunder k = false
 
 theorem natText_inj {a b : Nat} (h : natText a = natText b) : a = b := by
   have := congrArg natOfText h
@@ -129,7 +133,7 @@ theorem endPair_closed {u : UC} {d : ClassDiagram} {comp : Option Nat} {drv : Bo
 
 theorem toMM_closed {u : UC} {d : ClassDiagram} {comp : Option Nat} {drv : Bool} (ok : ReloadOk u d comp drv) :
     ((extract d comp drv).toMM).Closed u := by
-  refine ⟨?_, ?_, ?_, ?_, ?_, ?_⟩
+  refine ⟨?_, ?_, ?_, ?_, ?_, ?_, ok.plainAttrs, ok.plainKeys⟩
   · -- distinct upper-cased kinds: a sublist of the diagram's
     have : ((extract d comp drv).toMM).classes.map (fun c => u.upper c.kind) =
         (d.classes.filter (fun c => inScope d.containers comp c.parent)).map (fun c => u.upper c.kl.toList) := by
